@@ -10,7 +10,7 @@ from gridrv.oracles import datafiles
 PROP = "C12"
 TITLE = "Degree/size requests resolve to the smallest supported angular grid not below"
 REQUIRED_HOOKS = ["AngularGrid.__init__", "AngularGrid.__init__:raised"]
-REQUIRED_FAMILIES = ["degree-range", "size-range", "converter", "reject", "atomgrid-shells"]
+REQUIRED_FAMILIES = ["degree-range", "size-range", "converter", "reject", "atomgrid-shells", "preset-shells"]
 BUDGET = {"quick": 240, "thorough": 2400}
 EXHAUSTIVE = {"quick": True, "thorough": True}
 RULE = (
@@ -55,6 +55,11 @@ def cases(tier, seed):
         out.append(("reject", {"method": m}, 1.0))
         for k in range(4 if tier == "quick" else 40):
             out.append(("atomgrid-shells", {"method": m, "k": k}, 2.0))
+    # presets through every angular method: no shell coarser than tabulated (clause shared with C05, whose monitor is reused)
+    for pi, preset in enumerate(["coarse", "medium", "fine", "veryfine", "ultrafine", "insane", "sg_1", "sg_0", "sg_2", "g1", "g3"]):
+        for mi, m in enumerate(METHODS):
+            for k in range(1 if tier == "quick" else 6):
+                out.append(("preset-shells", {"preset": preset, "method": m, "k": k}, 3.0))
     out.append(("tables", {}, 1.0))
     return out
 
@@ -73,13 +78,13 @@ def run_case(ctx, family, params):
     if family == "degree-range":
         for d in range(params["start"], params["stop"]):
             with ctx.guard("resolve-smallest-not-below", f"{m}:degree={d}"):
-                g = AngularGrid(degree=d if d % 2 else np.int64(d), method=m, cache=params.get("cache", True))
+                g = AngularGrid(degree=_as_int_form(d, d), method=m, cache=params.get("cache", True))
                 ctx.check("file-has-that-many-points", f"{m}:degree={d}", _file_len(m, g) == g.size)
     elif family == "size-range":
         vals = params.get("list") or range(params["start"], params["stop"])
         for s in vals:
             with ctx.guard("resolve-smallest-not-below", f"{m}:size={s}"):
-                g = AngularGrid(size=int(s) if s % 3 else np.int64(s), method=m, cache=params.get("cache", True))
+                g = AngularGrid(size=_as_int_form(int(s), int(s) + 1), method=m, cache=params.get("cache", True))
                 ctx.check("file-has-that-many-points", f"{m}:size={s}", _file_len(m, g) == g.size)
     elif family == "converter":
         dmax, smax = _max(m)
@@ -148,6 +153,28 @@ def run_case(ctx, family, params):
                 got_sizes = [int(at.indices[i + 1] - at.indices[i]) for i in range(nsh)]
                 ctx.check("atomgrid-shell-not-coarser", f"{m}:sizes", list(map(int, at.degrees)) == [w[0] for w in want] and got_sizes == [w[1] for w in want], detail={"req": req, "got": got_sizes})
                 ctx.check("atomgrid-shell-not-coarser", f"{m}:sizes>=req", all(g >= q for g, q in zip(got_sizes, req)))
+    elif family == "preset-shells":
+        from gridrv.monitors import atomgrid_c05
+        from gridrv.oracles import presets_c05
+        from grid.onedgrid import GaussChebyshev
+        from grid.rtransform import BeckeRTransform
+
+        preset = params["preset"]
+        els = [z for z in presets_c05.elements(preset) if not (preset == "sg_3" and z == 14)]
+        z = int(els[int(ctx.rng.integers(0, len(els)))])
+        n = presets_c05.prescribed_size(preset, z) or int(ctx.rng.integers(20, 60))
+        rg = BeckeRTransform(1e-4, 1.5).transform_1d_grid(GaussChebyshev(n))
+        a = {"atnum": z, "preset": preset, "rgrid": rg, "center": None, "rotate": 0, "method": m}
+        ctx.case_note("Z", z)
+        try:
+            at = AtomGrid.from_preset(atnum=z, preset=preset, rgrid=rg, method=m)
+        except Exception as exc:
+            if not __import__("gridrv.core", fromlist=["core"]).is_library_exception(exc):
+                raise
+            atomgrid_c05.check_preset(ctx, None, exc, a)
+            return
+        ctx.hit("AtomGrid.from_preset")
+        atomgrid_c05.check_preset(ctx, at, None, a)
     elif family == "tables":
         for mm in METHODS:
             npoints, degrees = datafiles.code_dicts(mm)
@@ -163,6 +190,15 @@ def run_case(ctx, family, params):
             ctx.case_note(mm + "_unadvertised_files", sorted(files - set(t)))
     else:
         raise ValueError(family)
+
+
+_INT_FORMS = [int, np.int64, np.int32, np.int16, np.uint16, np.int8, np.uint8, np.uint32, np.uint64]
+
+
+def _as_int_form(v, k):
+    """The request as a Python int or as any NumPy integer type that can hold it (rotating with k)."""
+    forms = [f for f in _INT_FORMS if f is int or (np.iinfo(f).min <= v <= np.iinfo(f).max)]
+    return forms[k % len(forms)](v)
 
 
 _len_memo = {}
